@@ -23,7 +23,7 @@ using citer = std::string::const_iterator;
 using ref::Packet; using ref::Props; using ref::Bytes;
 
 // ------------------------------------------------------------------ shared result area (fork workers)
-struct VioSlot { char sig[120]; char detail[240]; char replay[600]; uint64_t count; };
+struct VioSlot { char sig[120]; char detail[240]; char replay[1200]; uint64_t count; };   // replay: at most 280 wire bytes in hex + framing, never truncated
 struct Shared {
     volatile uint64_t cases, calls, accepted, rejected, nontrivial, lenient; volatile int next; volatile int nvio;
     VioSlot vio[96]; char samples[8][400]; volatile int nsamples;
@@ -32,9 +32,9 @@ static Shared* SH;
 static void add_violation(const std::string& sig, const std::string& detail, const std::string& replay) {
     for (int i = 0; i < SH->nvio && i < 96; ++i) if (!strncmp(SH->vio[i].sig, sig.c_str(), 119)) { __sync_fetch_and_add(&SH->vio[i].count, 1); return; }
     int k = __sync_fetch_and_add(&SH->nvio, 1); if (k >= 96) return;
-    strncpy(SH->vio[k].sig, sig.c_str(), 119); strncpy(SH->vio[k].detail, detail.c_str(), 239); strncpy(SH->vio[k].replay, replay.c_str(), 599); SH->vio[k].count = 1;
+    strncpy(SH->vio[k].sig, sig.c_str(), 119); strncpy(SH->vio[k].detail, detail.c_str(), 239); strncpy(SH->vio[k].replay, replay.size() < 1199 ? replay.c_str() : "{}", 1199); SH->vio[k].count = 1;
 }
-static void add_sample(const std::string& s) { int k = __sync_fetch_and_add(&SH->nsamples, 1); if (k < 8) strncpy(SH->samples[k], s.c_str(), 399); }
+static void add_sample(const std::string& s) { if (s.size() >= 399) return; int k = __sync_fetch_and_add(&SH->nsamples, 1); if (k < 8) strncpy(SH->samples[k], s.c_str(), 399); }
 
 // ------------------------------------------------------------------ guard-page arena
 static const size_t PAGE = 4096, ARENA_PAGES = 320;
